@@ -17,7 +17,7 @@ from .common import COMPONENTS_BASE, run_sim, new_sim, finish_outcome
 
 PID = "C16"
 LEVEL = "exploration"
-BUDGET = {"quick": 50000, "thorough": 1500000}
+BUDGET = {"quick": 250000, "thorough": 5000000}
 RULE = (
     "each run draws 1..2 co-tenant scenarios: 0..10 items over 1..4 keys (runs re-occurring), key absent / "
     "sync / async (5 callable flavours), a logging source flavour with suspensions, and a history of <=15 ops "
